@@ -613,7 +613,24 @@ class Interpreter:
             E = _pick(els, t)
             if E is None:
                 return None
+            def sibling_value(k):
+                """a value some sibling of E currently carries under key k (to provoke collisions)"""
+                for attr, lst in (("netlist", "libraries"), ("library", "definitions"),
+                                  ("definition", "ports" if type(E).__name__ == "Port" else "cables"),
+                                  ("parent", "children")):
+                    par = getattr(E, attr, None)
+                    if par is not None and not callable(par) and hasattr(par, lst):
+                        vals = [x.data[k] for x in getattr(par, lst) if x is not E and k in x.data
+                                and isinstance(x.data[k], str)]
+                        if vals:
+                            return vals[a % len(vals)]
+                return None
             if name == "el.name=":
+                if s is not None and mode % 3 == 0:
+                    sv = sibling_value(".NAME")
+                    if sv is not None:
+                        s = sv
+
                 def f():
                     E.name = s
                 return Call(name, E, [s], f, kind="data", key=".NAME")
@@ -624,6 +641,10 @@ class Interpreter:
             if name == "el.set":
                 if key == "EDIF.identifier":
                     v = IDENTS_SET[b % len(IDENTS_SET)]
+                    if mode % 3 == 0:
+                        sv = sibling_value("EDIF.identifier")
+                        if sv is not None:
+                            v = sv.swapcase() if mode % 2 else sv
                 elif key == ".NAME":
                     v = s
                     if v is None:
